@@ -152,6 +152,35 @@ impl<'a> IndexSelector<'a> {
                 .unwrap_or(false)
         })?;
 
+        // The lookup key is encoded from the literal; index entries are encoded from column
+        // values. They only coincide when the literal has the column's type class, otherwise
+        // (`id = 4.0`, `f = 3`, `flag = 1`, `d = '2024-01-01'`) fall back to scan + filter.
+        {
+            use crate::sql::ast::Literal;
+            use crate::types::DataType;
+            let column_type = table_def
+                .columns()
+                .iter()
+                .find(|c| c.name().eq_ignore_ascii_case(col_name))
+                .map(|c| c.data_type())?;
+            let same_class = match literal_expr {
+                Expr::Literal(Literal::Integer(_)) => {
+                    matches!(column_type, DataType::Int2 | DataType::Int4 | DataType::Int8)
+                }
+                Expr::Literal(Literal::Float(_)) => {
+                    matches!(column_type, DataType::Float4 | DataType::Float8)
+                }
+                Expr::Literal(Literal::String(_)) => {
+                    matches!(column_type, DataType::Text | DataType::Varchar | DataType::Char)
+                }
+                Expr::Literal(Literal::Boolean(_)) => matches!(column_type, DataType::Bool),
+                _ => false,
+            };
+            if !same_class {
+                return None;
+            }
+        }
+
         let key_bytes = encode_fn(literal_expr)?;
 
         let index_name = self.arena.alloc_str(matching_index.name());
@@ -248,8 +277,23 @@ impl<'a> IndexSelector<'a> {
 
         // the table B-tree is keyed by the internal row id (insertion order), not by the PRIMARY KEY value:
         // a plain table scan is not in primary-key order; the PRIMARY KEY's unique index below is.
+        // unique indexes hold no entry for NULL keys: they enumerate the table only when the
+        // column cannot be NULL
+        let column_not_null = table_def
+            .columns()
+            .iter()
+            .find(|c| c.name().eq_ignore_ascii_case(col_name))
+            .map(|c| {
+                c.has_constraint(&crate::schema::table::Constraint::NotNull)
+                    || c.has_constraint(&crate::schema::table::Constraint::PrimaryKey)
+            })
+            .unwrap_or(false);
+
         let matching_index = table_def.indexes().iter().find(|idx| {
             if idx.has_expressions() || idx.is_partial() {
+                return false;
+            }
+            if idx.is_unique() && !column_not_null {
                 return false;
             }
             idx.columns()
